@@ -80,9 +80,17 @@ def bounds(tier):
             "deviation_bound": 2, "engines": ["numpy", "normal"]}
 
 
+BIG_SHAPES = [(3, 100), (16, 255), (16, 256), (16, 1000), (3, 1000), (16, 1024), (8, 2000), (16, 4096)]
+
+
 def points(tier):
     cfgs = configs(tier)
     pts = []
+    # row counts at and around round numbers, wrapped and unwrapped (size-dependent buffering must not lose rows)
+    base = [i for i, c in enumerate(cfgs) if all(c[n] == v[0] for n, v in AXES if n != "wrap")]
+    for (nc, nr) in BIG_SHAPES:
+        for ci in base:
+            pts.append([nc, nr, ci, "numpy", tier])
     for (nc, nr) in shapes(tier):
         for ci in range(len(cfgs)):
             for eng in ("numpy", "normal"):
@@ -208,7 +216,37 @@ def check_point(pt):
                         bad = True
                 if bad:
                     break
-    return vio[:2], nontriv, "ok", {}, 2
+    if vio or eng != "numpy" or nr > 50:
+        return vio[:2], nontriv, "ok", {}, 2
+    # second stage: the same object, edited in place after it has been written once, written again
+    m2 = np.roll(m, 1, axis=0) if nr > 1 else m.copy()
+    m2 = np.where(np.isnan(m2), m2, m2 * 1.0)
+    for j, c in enumerate(list(las.curves)):
+        col = m2[:, j].copy()
+        if j > 0 and nr >= 1:
+            col[0] = 0.5 if np.isnan(m[0, j]) else (np.nan if j != 0 else col[0])
+        c.data[...] = col
+        m2[:, j] = col
+    try:
+        s = io.StringIO()
+        las.write(s, **kw)
+        back2 = lasio.read(s.getvalue(), engine=eng)
+    except Exception as e:
+        return [V("second-write-raises", "write/read after an in-place edit succeed", "%s: %s" % (type(e).__name__, str(e)[:150]))], nontriv, "ok", {}, 4
+    b2 = list(back2.curves)
+    if len(b2) != nc or any(len(c.data) != nr for c in b2):
+        return [V("second-write-shape", [nr, nc], [[len(c.data) for c in b2]], s.getvalue())], nontriv, "ok", {}, 4
+    for j in range(nc):
+        fmt = kw.get("column_fmt", {}).get(j, kw["fmt"])
+        for i in range(nr):
+            x, r = m2[i, j], b2[j].data[i]
+            if np.isnan(x) != np.isnan(r):
+                return [V("second-write-stale", {"cell": [i, j], "memory": repr(float(x))}, repr(float(r)), s.getvalue())], nontriv, "ok", {}, 4
+            if not np.isnan(x):
+                tol = float(quantum(fmt, x)) / 2 * (1 + 1e-12) + abs(float(np.spacing(r)))
+                if not abs(float(r) - float(x)) <= tol:
+                    return [V("second-write-stale", {"cell": [i, j], "memory": float(x), "fmt": fmt}, float(r), s.getvalue())], nontriv, "ok", {}, 4
+    return vio[:2], nontriv, "ok", {}, 4
 
 
 def replay(witness):
